@@ -19,6 +19,7 @@ EXTENDS BlockClientObs, TLC
 
 CONSTANTS Ns,            \* request body lengths (bytes)
           Ms,            \* representation lengths (bytes) for the request lengths in NsWide
+          MsNoEtag,      \* representation lengths for which representation 1 may also come without ETag
           NsWide, MsFew, \* (the other request lengths are combined with the representation lengths MsFew)
           MaxSzx,        \* size exponents 0..MaxSzx (client maximum and server choices)
           NetBudget,     \* lost / duplicated datagrams per transfer
@@ -42,7 +43,7 @@ OkCode == 68
 
 E0 == [k |-> "", q |-> 0, code |-> 0, b1n |-> -1, b1m |-> -1, b1s |-> -1, b2n |-> -1, b2m |-> -1, b2s |-> -1,
        plen |-> 0, cid |-> -1, off |-> -1, cok |-> TRUE, size1 |-> -1, len |-> -1, etag |-> -1, rid |-> 0,
-       rt |-> FALSE, x |-> "", c |-> -1]
+       rt |-> FALSE, x |-> "", c |-> -1, rk |-> 0]
 
 NoR == [b1n |-> -1, b1m |-> -1, b1s |-> -1, b2n |-> -1, b2m |-> -1, b2s |-> -1, plen |-> 0, off |-> -1, size1 |-> -1]
 NoM == [code |-> 0, b1n |-> -1, b1m |-> -1, b1s |-> -1, b2n |-> -1, b2m |-> -1, b2s |-> -1, plen |-> 0, cid |-> -1,
@@ -53,7 +54,7 @@ NoAct == [a |-> "", rp |-> FALSE, flt0 |-> "none", dbl |-> FALSE, st |-> "a", a1
 ReqEv(r, rt) == [E0 EXCEPT !.k = "req", !.q = 1, !.code = Method, !.b1n = r.b1n, !.b1m = r.b1m, !.b1s = r.b1s,
                            !.b2n = r.b2n, !.b2m = r.b2m, !.b2s = r.b2s, !.plen = r.plen,
                            !.cid = IF r.plen > 0 THEN ReqCid ELSE -1, !.off = IF r.plen > 0 THEN r.off ELSE -1,
-                           !.size1 = r.size1, !.rt = rt]
+                           !.size1 = r.size1, !.rt = rt, !.rk = 1]      \* (same method and options in every request)
 RespEv(k, m, rt) == [E0 EXCEPT !.k = k, !.q = 1, !.code = m.code, !.b1n = m.b1n, !.b1m = m.b1m, !.b1s = m.b1s,
                            !.b2n = m.b2n, !.b2m = m.b2m, !.b2s = m.b2s, !.plen = m.plen, !.cid = m.cid, !.off = m.off,
                            !.etag = m.etag, !.rid = m.rid, !.x = m.x, !.rt = rt]
@@ -63,7 +64,7 @@ Step(es) == /\ emit' = es /\ obs' = ObsFold(obs, es)
 Init == /\ pc = "idle"
         /\ cl = [N |-> 0, C |-> 0, ph |-> "b1", szx |-> 0, cur |-> 0, req |-> NoR,
                  alen |-> 0, aszx |-> 0, aetag |-> -1, acid |-> -1, aok |-> TRUE, acode |-> 0]
-        /\ srv = [blen |-> -1, bok |-> TRUE, rid |-> 0, M |-> 0, nb1 |-> 0, nb2 |-> 0, style |-> "", pers |-> "none", psh |-> 0]
+        /\ srv = [blen |-> -1, bok |-> TRUE, rid |-> 0, M |-> 0, nb1 |-> 0, nb2 |-> 0, style |-> "", pers |-> "none", psh |-> 0, et |-> -1]
         /\ msg = NoM /\ nreq = 0 /\ nb = NetBudget /\ fb = FaultBudget /\ arm = [f |-> 0, n |-> 0]
         /\ emit = << >> /\ obs = ObsInit /\ act = NoAct
 
@@ -140,15 +141,15 @@ Serves(r, flt) == (IsFinal(r) /\ flt # "b1cont") \/ (r.b1n < 0 /\ r.b2n >= 0)
 LenFaults == {"b2short", "b2empty", "b2over"}
 
 \* the Block2 part of a response: representation (rid, M) asked for with r, served at exponent a2
-Serve(m0, r, rid, M, a2, flt, sh) ==     \* sh: payload length of a block with a length fault
+Serve(m0, r, rid, et, M, a2, flt, sh) == \* et: ETag of the representation (-1: none)     \* sh: payload length of a block with a length fault
   LET szx == IF r.b2n >= 0 THEN Min(a2, r.b2s) ELSE a2
       size == Size(szx)
       off0 == IF r.b2n >= 0 THEN r.b2n * Size(r.b2s) ELSE 0
-      m1 == [m0 EXCEPT !.code = OkCode, !.etag = RepEtag(rid), !.rid = rid]
+      m1 == [m0 EXCEPT !.code = OkCode, !.etag = et, !.rid = rid]
   IN IF r.b2n < 0 /\ M <= size
        THEN [m1 EXCEPT !.plen = M, !.cid = IF M > 0 THEN RepCid(rid) ELSE -1, !.off = IF M > 0 THEN 0 ELSE -1]
-     ELSE LET off == IF flt = "b2skip" THEN off0 + size ELSE off0
-              num == (off \div size) + (IF flt = "b2num" THEN 1 ELSE 0)
+     ELSE LET off == IF flt = "b2skip" THEN off0 + size ELSE IF flt = "b2prev" THEN off0 - size ELSE off0
+              num == (off \div size) + (IF flt = "b2num" THEN 1 ELSE IF flt = "b2numlo" THEN -1 ELSE 0)
               more == off + size < M
               plen == IF flt \in LenFaults THEN sh ELSE Min(size, M - off)
           IN [m1 EXCEPT !.b2n = num, !.b2m = IF more THEN 1 ELSE 0, !.b2s = szx, !.plen = plen,
@@ -163,6 +164,8 @@ Applicable(flt, r, M, a2) ==
       more == off0 + size < M
   IN CASE flt = "none"    -> TRUE
        [] flt = "b1num"   -> r.b1n >= 0
+       [] flt = "b1numlo" -> r.b1n > 0
+       [] flt \in {"b2numlo", "b2prev"} -> Serves(r, flt) /\ blockwise /\ off0 >= size
        [] flt \in {"b1more", "b1cont"} -> r.b1n >= 0 /\ r.b1m = 0
        [] flt = "etag"    -> r.b1n < 0 /\ r.b2n >= 0
        [] flt = "b2num"   -> Serves(r, flt) /\ blockwise
@@ -170,7 +173,8 @@ Applicable(flt, r, M, a2) ==
        [] flt = "b2over"  -> Serves(r, flt) /\ blockwise /\ off0 + 2 * size < M
        [] OTHER -> FALSE
 
-Faults == {"b1num", "b1more", "b1cont", "etag", "b2num", "b2skip", "b2short", "b2empty", "b2over"}
+Faults == {"b1num", "b1numlo", "b1more", "b1cont", "etag", "b2num", "b2numlo", "b2skip", "b2prev", "b2short", "b2empty",
+           "b2over"}
 
 \* payload lengths of a block that contradicts its size: 1..size-1 / none / size+1 or two whole blocks
 LenChoices(flt, size) == CASE flt = "b2short" -> {1, size - 1}
@@ -189,12 +193,16 @@ ServerHandle ==
            style \in (IF r.b1n >= 0 /\ r.b1m = 1 /\ srv.style = "" THEN AckStyles ELSE {srv.style}),
            M1 \in (IF final THEN (IF cl.N \in NsWide THEN Ms ELSE MsFew) ELSE {0}) :
         \E M2 \in (IF flt0 = "etag" THEN {srv.M, srv.M + 20} ELSE {0}),
+           et1 \in (IF final /\ M1 \in MsNoEtag THEN BOOLEAN ELSE {TRUE}),     \* representation 1 / 2 with ETag?
+           et2 \in (IF flt0 = "etag" THEN BOOLEAN ELSE {TRUE}),
            a2 \in (IF Serves(r, flt0) THEN (IF r.b2n >= 0 THEN 0..r.b2s ELSE 0..MaxSzx) ELSE {0}) :
         LET Mcur == IF final THEN M1 ELSE IF flt0 = "etag" THEN M2 ELSE srv.M
             \* a repeated length fault hits again (no budget) wherever it applies and the response is delivered
             again == flt0 = "none" /\ srv.pers # "none" /\ fate # "dropresp" /\ Applicable(srv.pers, r, Mcur, a2)
             flt == IF again THEN srv.pers ELSE flt0
             rid == IF final THEN 1 ELSE IF flt = "etag" THEN 2 ELSE srv.rid
+            et == IF final THEN (IF et1 THEN RepEtag(1) ELSE -1)
+                  ELSE IF flt = "etag" THEN (IF et2 THEN RepEtag(2) ELSE -1) ELSE srv.et
             \* acknowledgement style of this (not last) Block1 request
             st == CASE style = "as" -> (IF srv.nb1 % 2 = 0 THEN "a" ELSE "s")
                     [] style = "sa" -> (IF srv.nb1 % 2 = 0 THEN "s" ELSE "a")
@@ -216,17 +224,17 @@ ServerHandle ==
                bok1 == IF r.b1n >= 0 THEN (IF r.b1n = 0 THEN TRUE ELSE srv.bok) /\ r.off = off /\ off = blen0
                        ELSE (r.plen = 0 \/ r.off = 0)
                ack == IF r.b1n >= 0
-                        THEN [NoM EXCEPT !.b1n = r.b1n + (IF flt = "b1num" THEN 1 ELSE 0),
+                        THEN [NoM EXCEPT !.b1n = r.b1n + (IF flt = "b1num" THEN 1 ELSE IF flt = "b1numlo" THEN -1 ELSE 0),
                                          !.b1m = IF (r.b1m = 1 /\ st = "a") \/ flt = "b1more" THEN 1 ELSE 0,
                                          !.b1s = a1, !.x = IF flt = "none" THEN "" ELSE flt]
                         ELSE [NoM EXCEPT !.x = IF flt = "none" THEN "" ELSE flt]
                m == IF r.b1n >= 0 /\ r.b1m = 1 /\ st = "s" THEN [ack EXCEPT !.code = OkCode]
                     ELSE IF r.b1n >= 0 /\ (r.b1m = 1 \/ flt = "b1cont") THEN [ack EXCEPT !.code = 95]
-                    ELSE Serve(ack, r, rid, M, a2, flt, sh)
+                    ELSE Serve(ack, r, rid, et, M, a2, flt, sh)
                asm == IF final THEN <<[E0 EXCEPT !.k = "asm", !.len = blen1, !.cid = IF blen1 > 0 THEN ReqCid ELSE -1,
                                                   !.cok = bok1]>> ELSE << >>
                rep == IF final \/ flt = "etag"
-                        THEN <<[E0 EXCEPT !.k = "rep", !.rid = rid, !.len = M, !.cid = RepCid(rid), !.etag = RepEtag(rid)]>>
+                        THEN <<[E0 EXCEPT !.k = "rep", !.rid = rid, !.len = M, !.cid = RepCid(rid), !.etag = et]>>
                         ELSE << >>
                out == CASE fate = "ok"       -> <<RespEv("resp", m, FALSE)>>
                         [] fate = "dupresp"  -> <<RespEv("resp", m, FALSE), RespEv("resp", m, TRUE)>>
@@ -235,6 +243,7 @@ ServerHandle ==
                          bok  |-> IF r.b1n >= 0 THEN bok1 ELSE srv.bok,
                          rid  |-> IF Serves(r, flt) THEN rid ELSE srv.rid,
                          M    |-> IF Serves(r, flt) THEN M ELSE srv.M,
+                         et   |-> IF Serves(r, flt) THEN et ELSE srv.et,
                          nb1  |-> srv.nb1 + (IF r.b1n >= 0 THEN 1 ELSE 0),
                          nb2  |-> srv.nb2 + (IF Serves(r, flt) THEN 1 ELSE 0),
                          style |-> IF final THEN "" ELSE style,      \* (irrelevant once the body is complete)
